@@ -1466,7 +1466,31 @@ func stateFacts(fset *token.FileSet, files []*ast.File, info *types.Info, pkg *t
 		}
 		return "[" + strings.Join(q, ", ") + "]"
 	}
+	// init functions and build constraints: code that runs or exists outside what the translated functions show
+	var inits, tags []string
+	for _, f := range files {
+		fname := fset.Position(f.Pos()).Filename
+		base := fname[strings.LastIndex(fname, "/")+1:]
+		for _, d := range f.Decls {
+			if fd, ok := d.(*ast.FuncDecl); ok && fd.Recv == nil && fd.Name.Name == "init" {
+				inits = append(inits, base+":init")
+			}
+		}
+		if data, err := os.ReadFile(fname); err == nil {
+			for _, line := range strings.Split(string(data), "\n") {
+				t := strings.TrimSpace(line)
+				if strings.HasPrefix(t, "package ") {
+					break
+				}
+				if strings.HasPrefix(t, "//go:build") || strings.HasPrefix(t, "// +build") {
+					tags = append(tags, base+":"+t)
+				}
+			}
+		}
+	}
 	return []string{
+		"/-- `init` functions of the package (file:init) -/\ndef pkg_inits : List String :=\n  " + lst(inits) + "\n",
+		"/-- build constraints on non-test source files other than the verification hooks (file:constraint) -/\ndef pkg_build_tags : List String :=\n  " + lst(tags) + "\n",
 		"/-- package-level variables (name:type) -/\ndef pkg_vars : List String :=\n  " + lst(vars) + "\n",
 		"/-- function:variable for every assignment to (or address-of) a package-level variable inside a function body -/\ndef pkg_writes : List String :=\n  " + lst(writes) + "\n",
 		"/-- function:variable.method for every method call on a package-level variable; function:go for goroutine starts -/\ndef pkg_calls : List String :=\n  " + lst(calls) + "\n",
